@@ -230,6 +230,21 @@ func c06ClosureUnderLock(all []*ssa.Function, f *ssa.Function, base ssa.Value, l
 				returned = returned || r2
 				other = other || o2
 			case *ssa.Store:
+				// an element of a step table: called (only) by the table's loop, in this function
+				if u.Val == v {
+					isStep := false
+					for _, t := range c05StepTables(par) {
+						for _, sv := range t.Steps {
+							if sv == v || sv == strip(v) {
+								calls = append(calls, t.Call)
+								isStep = true
+							}
+						}
+					}
+					if isStep {
+						continue
+					}
+				}
 				cell, isCell := u.Addr.(*ssa.Alloc)
 				if !isCell || u.Val != v || len(storesTo(cell)) != 1 {
 					other = true
@@ -799,7 +814,7 @@ func c06ConstructionOnlyFns(c *Ctx) map[*ssa.Function]bool {
 				call, isCall := in.(ssa.CallInstruction)
 				if isCall && StaticCallee(call) == fn {
 					ncall++
-					if _, isPlain := in.(*ssa.Call); !isPlain || !pathIsFresh(accessPath(call.Common().Args[0])) {
+					if _, isPlain := in.(*ssa.Call); !isPlain || !(pathIsFresh(accessPath(call.Common().Args[0])) || c06FreshThroughStep(f, call.Common().Args[0])) {
 						ok = false
 					}
 					return
@@ -1139,14 +1154,33 @@ func c06R2OCIStorage(c *Ctx) {
 			if h == nil || ErrResultIndex(h.Signature) < 0 || ErrOf(hc) == nil {
 				continue
 			}
+			type cand struct{ i int }
+			var cands []cand
 			for i, a := range hc.Common().Args {
-				if !SameValue(a, target) || i >= len(h.Params) {
-					continue
+				if SameValue(a, target) && i < len(h.Params) {
+					cands = append(cands, cand{i})
 				}
+			}
+			// ... or the helper computes the target itself and hands it back (prepareTarget(desc) (string, error))
+			if r0 := ResultOf(hc, 0); r0 != nil && h.Signature.Results().Len() == 2 && (SameValue(r0, target) || derivesFromAny(target, Aliases(r0), 0)) {
+				cands = append(cands, cand{-1})
+			}
+			for _, cd := range cands {
+				i := cd.i
 				var hHit, hMiss []Edge
 				var hStat ssa.CallInstruction
 				for _, sc := range CallsTo(h, "os.Stat", "os.Lstat") {
-					if c05ParamOf(sc.Common().Args[0]) == h.Params[i] {
+					onTarget := false
+					if i >= 0 {
+						onTarget = c05ParamOf(sc.Common().Args[0]) == h.Params[i]
+					} else {
+						for _, at := range RetAtoms(h, 0) {
+							if SameValue(sc.Common().Args[0], at.Val) {
+								onTarget = true
+							}
+						}
+					}
+					if onTarget {
 						hStat = sc
 						hHit = append(hHit, c05NilEdgesOf(sc)...)
 						_, m, _ := NilTests(h, Aliases(ErrOf(sc)))
@@ -1997,6 +2031,9 @@ func c06R3Absent(c *Ctx) {
 				if fn.Signature.Results().Len() == 1 && nm != "os.Remove" {
 					continue
 				}
+				if rs := fn.Signature.Results(); rs.Len() == 2 && !(existsShaped(fn) || types.IsInterface(rs.At(0).Type()) || c05IsOCIDescriptor(rs.At(0).Type())) {
+					continue // computes something else (a target path …): not an answer about the content
+				}
 				if len(absent) == 0 {
 					// an ignored or merely logged failure (cleanup) reports nothing
 					reported := false
@@ -2027,7 +2064,18 @@ func c06R3Absent(c *Ctx) {
 							for _, ifi := range Ifs(h) {
 								cond, t, _ := ifEdges(ifi)
 								if cc, isCall := cond.(*ssa.Call); isCall && len(cc.Call.Args) > 0 && hal[cc.Call.Args[0]] {
-									if CalleeName(cc) == "os.IsNotExist" || (CalleeName(cc) == "errors.Is" && isNotExist(cc.Call.Args[1])) {
+									// the sentinel may be the helper's own parameter, bound to fs.ErrNotExist at this call site: asNotFound(err, fs.ErrNotExist)
+									sentinelIsArg := false
+									if CalleeName(cc) == "errors.Is" {
+										if sp := c05ParamOf(cc.Call.Args[1]); sp != nil && sp.Parent() == h {
+											for k, q := range h.Params {
+												if q == sp && k < len(hc.Common().Args) && isNotExist(hc.Common().Args[k]) {
+													sentinelIsArg = true
+												}
+											}
+										}
+									}
+									if CalleeName(cc) == "os.IsNotExist" || (CalleeName(cc) == "errors.Is" && (isNotExist(cc.Call.Args[1]) || sentinelIsArg)) {
 										hab = append(hab, t)
 									}
 								}
@@ -2360,4 +2408,43 @@ func c06SameKey(a, b ssa.Value) bool {
 		}
 	}
 	return false
+}
+
+// c06FreshThroughStep: v, in closure g, is a captured variable of the enclosing function that holds an object
+// allocated there (still under construction), and g is a step of a step table of that function (it runs
+// synchronously, inside the constructor).
+func c06FreshThroughStep(g *ssa.Function, v ssa.Value) bool {
+	par := g.Parent()
+	if par == nil {
+		return false
+	}
+	isStep := false
+	for _, t := range c05StepTables(par) {
+		for _, sv := range t.Steps {
+			if c05StepFn(sv) == g {
+				isStep = true
+			}
+		}
+	}
+	if !isStep {
+		return false
+	}
+	ld, ok := strip(v).(*ssa.UnOp)
+	if !ok || ld.Op != token.MUL {
+		return false
+	}
+	fv, ok := ld.X.(*ssa.FreeVar)
+	if !ok || freeVarWritten(g, fv) {
+		return false
+	}
+	bs := freeVarBindings(fv)
+	if len(bs) != 1 {
+		return false
+	}
+	cell, ok := bs[0].(*ssa.Alloc)
+	if !ok {
+		return false
+	}
+	sv := c05SingleStoredValue(cell)
+	return sv != nil && pathIsFresh(accessPath(sv))
 }
